@@ -10,7 +10,7 @@ import Proofs.PrebuildCanon
   in which trees are compared; `genTokens` = the tokens of the text sourcegen.py prints for the instances
   prebuild.py creates (composition of the two walkers, written from their `accept_*` methods);
   `parseGen ctx` = a parser for that output language which classifies a bare `NS::f(…)` as `canon` does;
-  `supported ctx` = the statement set covered.  That the real prebuild.py + sourcegen.py compute
+  `supported ctx` = the statement set covered (event statements included).  That the real prebuild.py + sourcegen.py compute
   `genTokens ∘ canon` is decided on every run by the correspondence stream (harness/prop_C05.py).
 -/
 namespace PyxProps.C05
@@ -89,5 +89,19 @@ example : parseGen demoCtx (genTokens (canon demoCtx demo)) = some (canon demoCt
   regen_parses_back demoCtx demo (by decide)
 example : genTokens (canon demoCtx demo) ≠ genTokens demo := by decide   -- `canon` does change this tree
 example : (genTokens (canon demoCtx demo)).length > 100 := by decide
+
+/-- event statements are inside the supported set: generate to class / creator / instance, create event instance,
+    generate <event variable>, with data items -/
+def demoE : Block :=
+  .cons (.create "d" "DOG")
+  (.cons (.genEvt "DOG1" (some "'bark heard'") (.cons "count" (.bin (.int "1") "+" (.param "pi")) (.cons "who" (.str "\"x\"") .nil))
+      (.inst (.var "d")))
+  (.cons (.createEvt "ev" "DOG_A1" (some "'tick'") .nil (.cls "DOG"))
+  (.cons (.genEvt "DOG2" (some "'fed'") .nil (.creator "DOG"))
+  (.cons (.genPre (.var "ev")) .nil))))
+
+example : supported demoCtx (canon demoCtx demoE) = true := by decide
+example : parseGen demoCtx (genTokens (canon demoCtx demoE)) = some (canon demoCtx demoE) :=
+  regen_parses_back demoCtx demoE (by decide)
 
 end PyxProps.C05
